@@ -89,7 +89,12 @@ CONFIGS = [
     # the other option of the pair supplied as an explicit EMPTY tuple (legitimate; it must change nothing)
     (False, "regex+empty-glob", ("logging$", r".*\.handlers")),
     (False, "glob+empty-regex", ("logging", "*.path")),
+    # FILE exclusion patterns that match no path of the tree but, read as text, the dotted names of imported externals:
+    # they are about files and directories and must not touch external modules
+    (False, "glob+file-exclusions", ()),
+    (False, "regex+file-exclusions", ("os",)),
 ]
+FILE_EXCLUSIONS = ("*logging*", "*.path", "*rx.util")
 
 
 def pat_match(kind: str, pats, name: str) -> bool:
@@ -114,6 +119,8 @@ def scan(base: str, mp_rel: str, cfg):
         kw["external_exclusions"] = ()
     if kind == "glob+empty-regex":
         kw["regex_external_exclusions"] = ()
+    if kind.endswith("+file-exclusions"):
+        kw["exclusions"] = FILE_EXCLUSIONS
     try:
         ev = get_evaluable_architecture(os.path.join(base, "r"), os.path.join(base, mp_rel), **kw)
     except Exception as e:  # noqa: BLE001
